@@ -41,7 +41,7 @@ type scen struct {
 	seed    int64
 }
 
-var allKinds = []string{"Do", "Do", "DoMulti", "DoCache", "DoCacheWaiter", "Receive", "Blpop", "DoStream", "Dedicated", "DoMultiCache"}
+var allKinds = []string{"Do", "Do", "DoUnsub", "DoMulti", "DoCache", "DoCacheWaiter", "Receive", "Blpop", "DoStream", "Dedicated", "DoMultiCache"}
 
 func (sc scen) String() string {
 	return fmt.Sprintf("%s failure=%s queue=%s scale=%d always=%v pending=%v", sc.name, sc.failure, sc.queue, sc.scale, sc.always, sc.kinds)
@@ -76,20 +76,40 @@ func runScenario(run *mon.Run, sc scen) {
 				return true
 			}
 		}
-		return a[0] == "EXEC" || a[0] == "BLPOP"
+		if a[0] == "EXEC" || a[0] == "BLPOP" {
+			return true
+		}
+		return false
+	}
+	// the PING that rueidis writes right after an UNSUBSCRIBE is held too: the call is then pending with its
+	// unsubscribe push already read and only the trailing PONG outstanding
+	lastWasUnsub := map[int64]bool{}
+	heldOrig := isHeld
+	isHeldConn := func(c *fakeredis.Conn, a []string) bool {
+		was := lastWasUnsub[c.ID]
+		lastWasUnsub[c.ID] = strings.EqualFold(a[0], "UNSUBSCRIBE")
+		if was && strings.EqualFold(a[0], "PING") {
+			return true
+		}
+		return heldOrig(a)
 	}
 	if sc.failure == "cut" {
 		cutDone := map[string]bool{}
 		srv.Plan(&fakeredis.Rule{Name: "cut", Match: func(c *fakeredis.Conn, a []string) bool {
 			k := fmt.Sprint(c.ID)
-			if !isHeld(a) || cutDone[k] {
+			if !isHeldConn(c, a) || cutDone[k] {
 				return false
 			}
 			cutDone[k] = true
 			return true
 		}, Action: fakeredis.Action{DelayReply: time.Second, CloseAfter: 2}})
 	}
-	srv.Plan(&fakeredis.Rule{Name: "hold", Match: func(_ *fakeredis.Conn, a []string) bool { return isHeld(a) }, Action: fakeredis.Action{Stall: true}})
+	srv.Plan(&fakeredis.Rule{Name: "hold", Match: func(c *fakeredis.Conn, a []string) bool {
+		if sc.failure == "cut" {
+			return heldOrig(a) // the cut rule above already advanced the per-connection UNSUBSCRIBE tracking
+		}
+		return isHeldConn(c, a)
+	}, Action: fakeredis.Action{Stall: true}})
 
 	var calls []*call
 	var wg sync.WaitGroup
@@ -115,6 +135,8 @@ func runScenario(run *mon.Run, sc scen) {
 			switch kind {
 			case "Do":
 				err = checkStr(client.Do(ctx, echo(c.uid)), "echo:"+c.uid)
+			case "DoUnsub":
+				err = client.Do(ctx, client.B().Unsubscribe().Channel("never-subscribed-"+c.uid[5:]).Build()).Error()
 			case "DoMulti":
 				rs := client.DoMulti(ctx, echo("pre-"+c.uid[5:]), echo(c.uid), echo("post-"+c.uid[5:]))
 				err = checkStr(rs[1], "echo:"+c.uid)
@@ -387,9 +409,27 @@ func TestC04(t *testing.T) {
 			"calls after Close get ErrClosing and reach no server, and no goroutine of rueidis stays parked when the bubble ends; a case = (failure, queue, pending kinds)")
 	defer run.Finish()
 	run.Assume("virtual time: KeepAlive 1 s, ConnWriteTimeout 2 s, 1 s close grace => 8 s bound", "fakeredis Stall/Kill/Raw fault rules; a held command's reply never leaves the server")
+	livelocks := 0
 	for i, sc := range genScenarios(run) {
 		sc := sc
-		dl, stacks := drv.Bubble(t, func() { runScenario(run, sc) })
+		dl, stacks, frozen := drv.BubbleRT(t, 90*time.Second, func() { runScenario(run, sc) })
+		if frozen != nil && strings.HasPrefix(frozen[0], "(") {
+			livelocks++
+			run.Inconclusive("bubble did not finish in 90 s of real time and no spinning rueidis goroutine was identified: " + sc.String())
+			if livelocks >= 3 {
+				break
+			}
+			continue
+		}
+		if frozen != nil {
+			livelocks++
+			run.Violation("teardown-never-finishes", sc.failure+"|"+strings.Join(frozen, ";"), map[string]any{"scenario": sc.String(), "spinning_in": frozen,
+				"meaning": "a pending call never returned, so the connection's teardown keeps polling for it: virtual time is frozen by a goroutine that never blocks", "stacks": drv.Tail(stacks, 12000)})
+			if livelocks >= 3 {
+				break
+			}
+			continue
+		}
 		if dl != "" {
 			run.Violation("hang-or-leak", sc.failure+"|"+strings.Join(drv.RueidisFrames(stacks), ";"), map[string]any{"scenario": sc.String(), "synctest": dl, "rueidis_frames": drv.RueidisFrames(stacks), "stacks": drv.Tail(stacks, 16000)})
 		}
